@@ -25,7 +25,12 @@ RULE = ('exhaustive grid: array shapes {2-D, 3-D} x extents 1..3 x axis in {0, 1
         '{None, dict, 1-D len 1..4, 2-D extents 1..3 x 1..3, 3-D, ragged}: the decision function check_kwargs_shape on the whole '
         'grid (ragged lists only through the entry points, which build the array); the public entry points: every array class x '
         'axis through BycycleGroup.fit, every valid list-shaped combination and every 3-D array x 2-D list x axis 0 / 1 through '
-        'compute_features_2d/3d, a seeded sample of the rest (quick) or the whole grid (thorough); each scalar parameter at, just '
+        'compute_features_2d/3d, a seeded sample of the rest (quick) or the whole grid (thorough); LARGE extents (kinds .../large-extent): '
+        'check_kwargs_shape alone on arrays of zeros with 256 / 257 / 300 / 1000 and seeded 258..1199 rows, 3-D arrays with one large '
+        'dimension or n0 * n1 > 256 from two moderate ones ((16, 17), (20, 13), (256, 3..5), ...), lists of exactly the documented '
+        'shape, off by one or by 256 in either dimension, capped at 255 / 256, transposed, of the flattened length, x every axis value; and a few real calls of '
+        'compute_features_2d / _3d / BycycleGroup.fit on 257-272 signals of 240 samples (documented list shape accepted and '
+        'analysed, off-by-one lists rejected); each scalar parameter at, just '
         'inside and just outside its range and at +/-inf through its public entry point; a bad sampling rate through every entry '
         'point that checks it (features, cyclepoints, burst features, objects, groups, limit_df, the four plot functions); bad '
         'thresholds / centre / burst method / reversed amplitude thresholds / min_n_cycles through Bycycle.fit and '
@@ -47,7 +52,10 @@ EXHAUSTIVE = {'quick': True, 'thorough': True}
 TRUST = ['inside the group functions multiprocessing.Pool is replaced, in-process and for the duration of one call, by a serial '
          'stand-in with the same interface (context manager + imap): a rejected setting makes the library leave `with Pool` '
          'through Pool.terminate(), which can dead-lock in CPython; validation itself is untouched']
-ASSUMPTIONS = ['the place where a ValueError is raised is free (fs = 0 is rejected by limit_df / plot_burst_detect_param '
+ASSUMPTIONS = ['"every documented valid combination of array shape, axis and option-list shape is accepted" (and "option lists whose shape '
+               'does not match the array and axis" are rejected) is read for every extent: the small extents of the quantifier are the '
+               'part that is enumerated exhaustively, the large-extent cases are a finite sample of the rest (the theorems have no bound)',
+               'the place where a ValueError is raised is free (fs = 0 is rejected by limit_df / plot_burst_detect_param '
                'themselves, elsewhere by neurodsp or matplotlib; fs < 0 by bycycle)',
                'a value that Python compares equal to a documented one but has another type (axis False, 0.0, True, 1.0, '
                '(0.0, 1.0)) is neither a documented nor an unknown value: no verdict',
@@ -541,6 +549,62 @@ def _valid_entry(g):
     return (a == '0' and kw == ['K1', d[1]]) or (a == '1' and kw == ['K1', d[2]]) or (a == '01' and kw == ['K2', d[1], d[2]])
 
 
+BIG_EXTENTS = [256, 257, 300, 1000]          # around and beyond one byte; the rule has no upper bound on extents
+
+
+def _big_shape_grid(rng, tier):
+    """LARGE extents for the decision function alone (no analysis: arrays of zeros, lists of that many dicts): 2-D arrays
+    with 256 ... 1000 rows (plus seeded extents), 3-D arrays with one large first / second dimension and with n0 * n1 > 256
+    from two moderate ones; lists of exactly the documented shape, off by one in either dimension, transposed, of the
+    flattened length, shorter / longer by 256, capped at 255 / 256, half, double; every axis value.  Same case format as the small grid (kind 'shape')."""
+    extra = sorted(rng.sample(range(258, 1200), 2 if tier == 'quick' else 8))
+    out = []
+    for n in BIG_EXTENTS + extra:
+        kws = {('KNone',), ('KDict',), ('K1', n - 1), ('K1', n), ('K1', n + 1), ('K2', n, 1), ('K2', 1, n), ('K2', n, 2),
+               ('K1', 1), ('K1', 255), ('K1', 256), ('K1', n - 256), ('K1', n + 256), ('K1', n // 2), ('K1', 2 * n)}
+        for k in sorted(kws):
+            if any(x < 1 for x in k[1:]):
+                continue
+            for a in AXES:
+                out.append({'dims': ['D2', n], 'kw': list(k), 'axis': a})
+    m = rng.choice([3, 4, 5])
+    pairs = [(257, 1), (1, 257), (300, 2), (2, 300), (16, 17), (17, 16), (20, 13), (1000, 1), (1, 1000), (256, m), (m, 256)]
+    pairs += [(extra[0], 1), (2, extra[-1])]
+    for n0, n1 in pairs:
+        kws = {('KNone',), ('KDict',), ('K1', n0 * n1), ('K2', n0, n1), ('K2', n1, n0), ('K2', n0 * n1, 1), ('K2', 1, n0 * n1)}
+        for d in (-1, 0, 1, -256, 256):                   # off by one; off by 256 (a length that wraps around in one byte)
+            kws |= {('K1', n0 + d), ('K1', n1 + d), ('K2', n0 + d, n1), ('K2', n0, n1 + d)}
+        kws |= {('K1', 256), ('K2', min(n0, 256), min(n1, 256)), ('K2', min(n0, 255), min(n1, 255))}
+        for k in sorted(kws):
+            if any(x < 1 for x in k[1:]) or (k[0] == 'K2' and k[1] * k[2] > 4000):
+                continue                                  # empty lists are outside the quantifier; keep the lists moderate
+            for a in AXES:
+                out.append({'dims': ['D3', n0, n1], 'kw': list(k), 'axis': a})
+    return out
+
+
+def _big_entry_cases(rng, tier):
+    """A few REAL entry-point calls on about 260 short signals (240 samples each; ~2 s per accepted call): the documented
+    list shape (accepted, analysed) and its off-by-one neighbours (rejected before any analysis), and BycycleGroup.fit
+    on such arrays."""
+    n = rng.choice([257, 258, 260, 263])
+    out = []
+    for dims, ax, good in ((['D2', n], '0', ['K1', n]), (['D2', 257], 'None', ['K1', 257]),
+                           (['D3', 20, 13], '01', ['K2', 20, 13]), (['D3', 257, 1], '0', ['K1', 257]),
+                           (['D3', 1, n], '1', ['K1', n])):
+        bad = [[good[0]] + [x + d if q == p else x for q, x in enumerate(good[1:])]
+               for p in range(len(good) - 1) for d in (-1, 1, -256, 256) if good[1 + p] + d >= 1]
+        if good[0] == 'K2':
+            bad.append(['K1', good[1] * good[2]])
+        else:
+            bad.append(['K2', good[1], 1])
+        for kw in [good] + bad:
+            out.append({'kind': 'entry', 'via': 'func', 'dims': dims, 'kw': kw, 'axis': ax, 'big': True})
+    for dims, ax in ((['D2', 258], '0'), (['D3', 17, 16], '01')) + ((['D3', 1, 257], '1'), (['D3', 259, 1], '0'),) * (tier != 'quick'):
+        out.append({'kind': 'entry', 'via': 'group', 'dims': dims, 'kw': ['KDict'], 'axis': ax, 'big': True})
+    return out
+
+
 def cases(rng, tier):
     out = []
     grid = list(_grid())
@@ -585,6 +649,9 @@ def cases(rng, tier):
             out.append({'kind': 'option', 'opt': opt, 'v': _enc(v)})
     out.extend(_optval_cases(rng, tier))
     out.extend(_min_n2_cases(rng, tier))
+    # large extents last (their own draws come after all others: the streams above are as before)
+    out.extend(dict(g, kind='shape', big=True) for g in _big_shape_grid(rng, tier))
+    out.extend(_big_entry_cases(rng, tier))
     return out
 
 
@@ -615,7 +682,8 @@ def _kwargs_obj(kw):
 def _sigs(dims):
     if dims[0] == 'D2':
         return np.array([_sig(240, i) for i in range(dims[1])])
-    return np.array([[_sig(240, i * 3 + j) for j in range(dims[2])] for i in range(dims[1])])
+    w = max(3, dims[2])
+    return np.array([[_sig(240, i * w + j) for j in range(dims[2])] for i in range(dims[1])])
 
 
 def _attempt(f):
@@ -922,6 +990,8 @@ def kind_of(c, o):
     elif k == 'min_n2':
         cls = lambda n: 'absent' if n is None else ('negative' if n < 0 else 'valid')
         k += '/%s/%s/burst_kwargs:%s/thresholds:%s' % (c['via'], c['method'], cls(c['bk']), cls(c['thr']))
+    if c.get('big'):
+        k += '/large-extent'
     return k + '/' + o.get('r', '?')
 
 
